@@ -1,6 +1,7 @@
 SPECIFICATION ASpec
 CONSTANTS
   Emit = FALSE
+  Ghosts = FALSE
   SepMode = "all"
   Mode = "producer"
   MaxMut = 3
